@@ -83,7 +83,11 @@ def finish(a, P, results, seed, t0):
         else:
             unlisted.append(v)
     rc = 0
-    os.makedirs(os.path.join(HERE, 'replays', pid), exist_ok=True)
+    rdir = os.path.join(HERE, 'replays', pid)
+    os.makedirs(rdir, exist_ok=True)
+    for old_f in os.listdir(rdir):          # replay files of earlier runs of this property are stale
+        try: os.unlink(os.path.join(rdir, old_f))
+        except OSError: pass
     # one VIOLATION line per (unit, handler case): the obligation whose counter-model reproduced natively is preferred; the other
     # failed obligations of the same case are listed inside its replay file
     groups = {}
